@@ -10,6 +10,7 @@ import copy
 import os
 import subprocess
 import tempfile
+import traceback
 import time
 from collections import defaultdict, deque
 
@@ -538,6 +539,8 @@ class Explorer:
                         args[p_] = cz.value(pinned) if pinned is not None else cz.entry(t, p_)
                     return {'args': args, 'ghost': ghost_values(model), 'bound': B}, 'sat'
                 except Exception as e:
+                    if os.environ.get('PYVC_DEBUG'):
+                        traceback.print_exc()
                     return None, f'concretize-error: {type(e).__name__}: {e}'
         return None, status
 
